@@ -698,7 +698,7 @@ def doc_rhoend(inst, nmax):
 def emit_return(run, s, kw, inputs_ok, extra_return):
     P, inst = run.P, run.inst
     inputerr = (s.flag == -1)
-    d = dict(flag=int(s.flag), msgc=msg_class(s.msg), msgnonempty=bool(isinstance(s.msg, str) and len(s.msg) > 0), nf=int(s.nf), nx=int(s.nx),
+    d = dict(flag=int(s.flag), msgc=msg_class(s.msg), msgnonempty=bool(isinstance(s.msg, str) and len(s.msg) > 0), nf=int(s.nf), nx=int(s.nx), wantsucc=not inst.get("restarts"),
              nruns=int(s.nruns), inputerr=inputerr, inputs_ok=inputs_ok, ncalls=len(run.calls))
     try:
         txt = str(s)
